@@ -805,14 +805,15 @@ def corr_terms(case, o):
         sc = scale_of(m["center"]) * len(m["center"])
         terms = [f"CMerge {qlan(a)} {qlan(b)} {qlist([qq(x) for x in seg_lens(m['center'])])} {qq(sc)} "
                  f"(OM {qlan(m)} {qlist([qq(x) for x in o[5]])})"]
-        excluded = 0
+        excluded, its = 0, []
         for sv, oi in o[6]:  # the merged lanelet under the interpolate_position model
             t = interp_term(m, sv, oi)
             if t:
-                terms.append(t)
+                its.append(t)
             else:
                 excluded += 1
-        return terms, excluded
+        # s = 0 and the last (random) query go to Coq; the oracle judges all of them
+        return terms + (its if len(its) <= 2 else [its[0], its[-1]]), excluded
     rel = "succ" if op == "succ" else "pred"
     if o[0] != "paths":
         return ["CRoutes [] [] 0%Z 0 [[0%Z]]"], 0  # never agrees: the model always terminates
@@ -862,7 +863,7 @@ def run(ctx):
                    "hand-written models coq/Model/ArcLen.v (lanelet.py:293-301,357-366,658-679,779-836) and "
                    "coq/Model/Routes.v (lanelet.py:919-991), tied to the code by the correspondence relation "
                    "coq/Corr/C20.v evaluated on every run",
-                   "numpy sqrt (oracle values with the hypothesis l>=0, l^2=|d|^2), cumsum (sequential), searchsorted "
+                   "numpy sqrt (oracle values with the hypothesis l>=0, l^2=|d|^2 over x, y, z), cumsum (sequential), searchsorted "
                    "(first index with v <= a[i] on a sorted array), isclose (|a-b| <= 1e-8 + 1e-5|b|)",
                    "harness/props/c20.py (generators, independent oracle, Coq term printer)",
                    "IEEE-754 arithmetic of CPython/numpy (rounded; model exact over Q)"]
